@@ -415,6 +415,53 @@ def check_two_open_type_fields(rep):
                                      dict(case, bytes=d_typed.hex()))
 
 
+def check_set_untagged_any(rep):
+    """SET { id, value ANY DEFINED BY id } with the ANY left untagged: members of a SET are told apart by tag, the untagged
+    ANY stands for every tag no other member has - inner values whose outermost tag differs from the governing member's"""
+    from pyasn1.type import univ, char, namedtype, opentype
+    ints = univ.SequenceOf(componentType=univ.Integer())
+    rec = univ.Sequence(componentType=namedtype.NamedTypes(namedtype.NamedType('f', univ.Boolean()), namedtype.NamedType('s', univ.OctetString())))
+    inner_ints = ints.clone()
+    inner_ints.extend([7, 8])
+    inner_rec = rec.clone()
+    inner_rec['f'] = True
+    inner_rec['s'] = b'xyz'
+    for id_t, ids in ((univ.Integer(), [1, 2, 3, 4]), (univ.ObjectIdentifier(), [(1, 3, 6, 1, k) for k in (1, 2, 3, 4)])):
+        inners = [univ.OctetString(b'ab'), char.UTF8String('hi'), inner_ints, inner_rec]
+        if isinstance(id_t, univ.ObjectIdentifier):
+            inners[1] = univ.Integer(5)          # an INTEGER inner value is unambiguous when the governing member is an OID
+        tmap = dict((k, v.clone() if not hasattr(v, 'componentType') else (ints if v is inner_ints else rec)) for k, v in zip(ids, inners))
+        for k in list(tmap):
+            if not hasattr(tmap[k], 'componentType'):
+                tmap[k] = type(tmap[k])()
+        schema = univ.Set(componentType=namedtype.NamedTypes(
+            namedtype.NamedType('id', id_t), namedtype.NamedType('value', univ.Any(), openType=opentype.OpenType('id', tmap))))
+        for gid, inner in zip(ids, inners):
+            for cdc, dm in MODES:
+                for resolve in (True, False):
+                    rep.evaluations += 1
+                    rep.count('set-untagged-any')
+                    case = {'kind': 'set-untagged-any', 'id': str(gid), 'inner': type(inner).__name__, 'codec': cdc, 'defMode': dm, 'resolve': resolve}
+                    try:
+                        v = schema.clone()
+                        v['id'] = gid
+                        v['value'] = inner
+                        data = enc(cdc, v, dm)
+                        raw = enc(cdc, inner, dm)
+                        res, rest = codec.DEC[cdc].decode(data, asn1Spec=schema, decodeOpenTypes=resolve)
+                        got = res['value']
+                    except Exception as e:  # noqa
+                        rep.fail('set-untagged-any:%s' % codec.classify(e), 'resolve=%s: %r' % (resolve, e), case)
+                        continue
+                    if resolve:
+                        ok = (not rest) and type(got) is type(inner) and got == inner
+                    else:
+                        ok = (not rest) and bytes(got) == raw
+                    if not ok:
+                        rep.fail('set-untagged-any:value', 'resolve=%s: the field came back as %s' % (resolve, str(got.prettyPrint())[:80].replace('\n', ' ')),
+                                 dict(case, bytes=data.hex()))
+
+
 def any_match(items, t, w):
     for it in items:
         try:
@@ -457,7 +504,7 @@ def run(rep, tier, seed):
                 '{single, SEQUENCE OF, SET OF} x random type maps into the schema universe (scalar and constructed inner types) x '
                 '{BER definite, BER indefinite, CER, DER} x {decodeOpenTypes on/off, mapped/unmapped id, openTypes override}; '
                 'non-trivial = constructed inner type or tagged ANY field')
-    rep.assumptions = ['SET containers are exercised with tagged ANY fields only when the ANY would otherwise be ambiguous']
+    rep.assumptions = ['in the generated stream SET containers get a tagged ANY field (an untagged one is ambiguous for inner values sharing the tag of another member); SET with an untagged ANY is exercised by a dedicated sweep with unambiguous inner values']
     g0 = gen.Gen(rng, max_depth=1, allow_any=False)
     _DRV[0] = common.Driver()
     check_map_history(rep, rng)
@@ -465,6 +512,8 @@ def run(rep, tier, seed):
     check_nested_caller_map(rep)
     rep.case('two open type fields', nontrivial=True)
     check_two_open_type_fields(rep)
+    rep.case('set with untagged any', nontrivial=True)
+    check_set_untagged_any(rep)
     for i in range(n):
         container = rng.choice(['seq', 'seq', 'set'])
         id_kind = rng.choice(['int', 'oid'])
